@@ -18,6 +18,8 @@ import (
 
 	"github.com/gr33nbl00d/caddy-revocation-validator/core"
 	"github.com/gr33nbl00d/caddy-revocation-validator/crl/crlreader"
+	"github.com/gr33nbl00d/caddy-revocation-validator/crl/crlstore"
+	"go.uber.org/zap"
 )
 
 // Case compares peak live heap for N1 and N2 entries.
@@ -32,6 +34,10 @@ type Case struct {
 	CertIssuer bool `json:"cert_issuer,omitempty"`
 	// Refresh: after the load the list is refreshed once more (same content) while sampling continues
 	Refresh bool `json:"refresh,omitempty"`
+	// Distinct: every entry carries an invalidityDate entry extension with its own value (no two entries alike)
+	Distinct bool `json:"distinct_exts,omitempty"`
+	// FailAfter (path store-fault): the LevelDB database starts rejecting writes after this many entries
+	FailAfter int `json:"fail_after,omitempty"`
 }
 
 func liveHeap() uint64 {
@@ -71,23 +77,48 @@ func (c *countingConsumer) InsertRevokedCertificate(*crlreader.CRLEntry) error {
 	}
 	return nil
 }
-func (c *countingConsumer) UpdateExtendedMetaInfo(*crlreader.ExtendedCRLMetaInfo) error { return nil }
+func (c *countingConsumer) UpdateExtendedMetaInfo(*crlreader.ExtendedCRLMetaInfo) error  { return nil }
 func (c *countingConsumer) UpdateSignatureCertificate(*core.CertificateChainEntry) error { return nil }
+
+// faultingConsumer is the real persisting processor; it makes the LevelDB handle read-only after a number of entries.
+type faultingConsumer struct {
+	crlstore.CRLPersisterProcessor
+	p     *peak
+	n     int
+	after int
+	db    *crlstore.LevelDbStore
+}
+
+func (c *faultingConsumer) InsertRevokedCertificate(e *crlreader.CRLEntry) error {
+	c.n++
+	if c.n == c.after {
+		if err := c.db.Db.SetReadOnly(); err != nil {
+			panic(err)
+		}
+	}
+	if c.n%5000 == 0 {
+		c.p.sample()
+	}
+	return c.CRLPersisterProcessor.InsertRevokedCertificate(e)
+}
 
 var ca = gen.Issue(gen.CertSpec{Key: "p256a", Subject: gen.CN("c17 ca"), SerialHex: "1001", IsCA: true}, nil)
 
 var certIssuerExt = gen.Ext{OID: "2.5.29.29", Critical: true, Value: gen.TLV(0x30, gen.TLV(0xa4, gen.CN("c17 indirect issuer with a reasonably long distinguished name").DER()))}
 
-func writeList(path string, n int, pem, exts, certIssuer bool) {
+func writeList(path string, n int, pem, exts, certIssuer, distinct bool, salt int) {
 	spec := gen.CRLSpec{Version: 1, SigAlg: "sha256ecdsa", IssuerDER: ca.Cert.RawSubject, ThisUpdate: 1700000000, NextUpdate: 1900000000, HasExts: true,
 		Exts: []gen.Ext{gen.CRLNumberExt([]byte{1})}, N: n}
 	spec.EntryFn = func(i int) gen.Entry {
-		e := gen.Entry{SerialHex: fmt.Sprintf("9e%030x%08x", uint64(i)*0x9e3779b97f4a7c15, i), Date: 1690000000 + int64(i%100000)}
+		e := gen.Entry{SerialHex: serialOf(i, salt), Date: 1690000000 + int64(i%100000)}
 		if exts {
 			e.Exts = []gen.Ext{gen.ReasonExt(byte(1 + i%5))}
 		}
 		if certIssuer {
 			e.Exts = append(e.Exts, certIssuerExt)
+		}
+		if distinct {
+			e.Exts = append(e.Exts, gen.InvalidityExt(time.Unix(1200000000+int64(salt)*40000000+int64(i)*13, 0).UTC()))
 		}
 		return e
 	}
@@ -106,14 +137,22 @@ func writeList(path string, n int, pem, exts, certIssuer bool) {
 	}
 }
 
-func serialOf(i int) string {
-	return fmt.Sprintf("9e%030x%08x", uint64(i)*0x9e3779b97f4a7c15, i)
+// serialOf: the salt makes the content of every measurement different from every earlier one of the process, so that
+// nothing a previous measurement left behind (a content-keyed memo, say) can make a later one look cheaper
+func serialOf(i, salt int) string {
+	return fmt.Sprintf("9e%02x%028x%08x", salt&0xff, uint64(i)*0x9e3779b97f4a7c15, i)
 }
 
 // measure returns the peak live heap above the baseline while processing a list of n entries.
-func measure(c Case, n int, dir string) (int64, error) {
+// retainedAbove: live heap above the baseline once everything the measurement opened is closed again.
+func (p *peak) retainedAbove() int64 {
+	debug.FreeOSMemory()
+	return int64(liveHeap()) - int64(p.base)
+}
+
+func measure(c Case, n int, dir string, salt int) (int64, int64, error) {
 	listPath := filepath.Join(dir, fmt.Sprintf("list-%d", n))
-	writeList(listPath, n, c.PEM, c.Exts, c.CertIssuer)
+	writeList(listPath, n, c.PEM, c.Exts, c.CertIssuer, c.Distinct, salt)
 	defer os.Remove(listPath)
 	debug.FreeOSMemory()
 	p := &peak{base: liveHeap()}
@@ -121,13 +160,36 @@ func measure(c Case, n int, dir string) (int64, error) {
 	if c.Path == "reader" {
 		cons := &countingConsumer{p: p}
 		if _, err := (crlreader.StreamingCRLFileReader{}).ReadCRL(cons, listPath); err != nil {
-			return 0, fmt.Errorf("reader rejected a well-formed list of %d entries: %v", n, err)
+			return 0, 0, fmt.Errorf("reader rejected a well-formed list of %d entries: %v", n, err)
 		}
 		if cons.n != n {
-			return 0, fmt.Errorf("consumer got %d of %d entries", cons.n, n)
+			return 0, 0, fmt.Errorf("consumer got %d of %d entries", cons.n, n)
 		}
 		p.sample()
-		return p.above(), nil
+		return p.above(), p.retainedAbove(), nil
+	}
+	if c.Path == "store-fault" {
+		// reader -> persisting processor -> LevelDB store whose database turns read-only after FailAfter entries (disk
+		// full, I/O error): whether the import aborts or carries on, what is kept in memory must not grow with the
+		// number of entries that still follow
+		f, err := crlstore.CreateStoreFactory(crlstore.LevelDB, dir, zap.NewNop())
+		if err != nil {
+			panic(err)
+		}
+		st, err := f.CreateStore(fmt.Sprintf("fault-%d", n), true)
+		if err != nil {
+			panic(err)
+		}
+		ldb := st.(*crlstore.LevelDbStore)
+		fc := &faultingConsumer{CRLPersisterProcessor: crlstore.CRLPersisterProcessor{CRLStore: st}, p: p, after: c.FailAfter, db: ldb}
+		_, rerr := (crlreader.StreamingCRLFileReader{}).ReadCRL(fc, listPath)
+		p.sample()
+		st.Close()
+		st.Delete()
+		if fc.n < c.FailAfter {
+			return 0, 0, fmt.Errorf("harness: the import ended after %d entries, before the fault at %d (%v)", fc.n, c.FailAfter, rerr)
+		}
+		return p.above(), p.retainedAbove(), nil
 	}
 	// whole path: (download ->) parse -> store -> lookups
 	o := world.NewOrigin()
@@ -159,25 +221,25 @@ func measure(c Case, n int, dir string) (int64, error) {
 	if err != nil {
 		close(stop)
 		<-done
-		return 0, fmt.Errorf("provisioning with a %d-entry list failed: %v", n, err)
+		return 0, 0, fmt.Errorf("provisioning with a %d-entry list failed: %v", n, err)
 	}
 	if c.Refresh {
 		world.Call("refresh", 20*time.Minute, func() int { ch.VerifForceUpdate(); return 0 })
 	}
 	pki := &world.SimplePKI{Root: ca}
 	for _, i := range []int{0, n / 2, n - 1} {
-		if v := world.Ask(ch, pki.ChainFor(pki.Leaf(serialOf(i), nil, nil))); v.Kind != "revoked" {
+		if v := world.Ask(ch, pki.ChainFor(pki.Leaf(serialOf(i, salt), nil, nil))); v.Kind != "revoked" {
 			close(stop)
 			<-done
 			ch.Cleanup()
-			return 0, fmt.Errorf("entry %d of %d is not reported revoked after the load: %v", i, n, v)
+			return 0, 0, fmt.Errorf("entry %d of %d is not reported revoked after the load: %v", i, n, v)
 		}
 	}
 	p.sample()
 	close(stop)
 	<-done
 	ch.Cleanup()
-	return p.above(), nil
+	return p.above(), p.retainedAbove(), nil
 }
 
 func runCase(c Case, x *ev.Ctx) error {
@@ -187,27 +249,32 @@ func runCase(c Case, x *ev.Ctx) error {
 	if c.Path == "whole-disk" {
 		limitGrowth, ceiling = 16<<20, 160<<20
 	}
-	var p1, p2, growth int64
-	// A measurement above the limit is repeated (up to three in total) and the smallest one counts: memory that grows
+	var p1, p2, growth, kept int64
+	const keptLimit = 8 << 20
+	// A measurement above a limit is repeated (up to three in total) and the best one counts: memory that grows
 	// with the number of entries shows in every measurement, a transient (LevelDB compaction starved on a busy
 	// machine, so that more tables and write buffers than usual are alive for a while) does not.
 	for attempt := 1; attempt <= 3; attempt++ {
-		a1, err := measure(c, c.N1, dir)
+		a1, _, err := measure(c, c.N1, dir, 2*attempt)
 		if err != nil {
 			return err
 		}
-		a2, err := measure(c, c.N2, dir)
+		a2, k2, err := measure(c, c.N2, dir, 2*attempt+1)
 		if err != nil {
 			return err
 		}
 		if attempt == 1 || a2-a1 < growth {
 			p1, p2, growth = a1, a2, a2-a1
 		}
-		if c.Path == "whole-memory" || (growth <= limitGrowth && p2 <= ceiling) {
+		if attempt == 1 || k2 < kept {
+			kept = k2
+		}
+		if c.Path == "whole-memory" || (growth <= limitGrowth && p2 <= ceiling && kept <= keptLimit) {
 			break
 		}
 		x.Classf("%s/above-limit-remeasured", c.Path)
 	}
+	x.Classf("%s/retained-after-N2=%dKiB", c.Path, kept>>10)
 	x.Classf("%s/peak-N1=%dKiB", c.Path, p1>>10)
 	x.Classf("%s/peak-N2=%dKiB", c.Path, p2>>10)
 	switch c.Path {
@@ -221,6 +288,10 @@ func runCase(c Case, x *ev.Ctx) error {
 		return fmt.Errorf("%s path (pem=%v via=%s exts=%v): peak live heap grows with the number of entries: %d KiB above baseline for N=%d, %d KiB for N=%d (growth %d KiB > %d KiB, i.e. %.1f bytes per additional entry)",
 			c.Path, c.PEM, c.Via, c.Exts, p1>>10, c.N1, p2>>10, c.N2, growth>>10, limitGrowth>>10, float64(growth)/float64(c.N2-c.N1))
 	}
+	if kept > keptLimit {
+		return fmt.Errorf("%s path (pem=%v via=%s exts=%v distinct=%v): %d KiB of live heap are still held after a list of %d entries was processed and everything was closed again (limit %d KiB): memory held per entry is never released",
+			c.Path, c.PEM, c.Via, c.Exts, c.Distinct, kept>>10, c.N2, keptLimit>>10)
+	}
 	if p2 > ceiling {
 		return fmt.Errorf("%s path: peak live heap %d KiB above baseline exceeds the ceiling of %d KiB for N=%d", c.Path, p2>>10, ceiling>>10, c.N2)
 	}
@@ -229,9 +300,9 @@ func runCase(c Case, x *ev.Ctx) error {
 }
 
 var spec = ev.Spec[Case]{
-	ID:  "C17",
-	Run: runCase,
-	Rule: "metamorphic in N: well-formed lists of N1 and N2 >> N1 entries (20-byte serials, reasonCode entry extensions) are written by the streaming encoder to a file (never held in memory by the harness) and processed (a) by the streaming reader with a counting consumer and (b) through the whole path provision -> (HTTP download | file copy) -> parse -> LevelDB -> (one case: + a refresh of the same list) -> lookups of first/middle/last entry; some lists carry a certificateIssuer entry extension on every entry; live heap (HeapAlloc right after a forced GC) is sampled every 5000 entries from inside the consumer and every 40 ms by a sampler during the whole path. Oracle: peak(N2) - peak(N1) <= 4 MiB (reader) / 16 MiB (whole path on disk; N1 is chosen large enough (>= 3*10^5 entries, 18 MB) that LevelDB's write buffers and caches are already saturated) and absolute ceilings 32 / 160 MiB; a pair above a limit is measured up to three times and the smallest growth counts (growth with N is reproducible, a transient of a busy machine is not); the memory back-end is measured and reported only (documented O(N)). Every size pair is non-trivial.",
+	ID:          "C17",
+	Run:         runCase,
+	Rule:        "metamorphic in N: well-formed lists of N1 and N2 >> N1 entries (20-byte serials, reasonCode entry extensions) are written by the streaming encoder to a file (never held in memory by the harness) and processed (a) by the streaming reader with a counting consumer and (b) through the whole path provision -> (HTTP download | file copy) -> parse -> LevelDB -> (one case: + a refresh of the same list) -> lookups of first/middle/last entry; some lists carry a certificateIssuer entry extension on every entry, some an invalidityDate extension with a different value on every entry; one pair feeds the reader into a LevelDB store whose database turns read-only after 1000 entries (path store-fault, judged like the reader path); live heap (HeapAlloc right after a forced GC) is sampled every 5000 entries from inside the consumer and every 40 ms by a sampler during the whole path. Oracle: peak(N2) - peak(N1) <= 4 MiB (reader) / 16 MiB (whole path on disk; N1 is chosen large enough (>= 3*10^5 entries, 18 MB) that LevelDB's write buffers and caches are already saturated) and absolute ceilings 32 / 160 MiB; after the N2 measurement and after everything was closed (Cleanup / store closed and deleted) at most 8 MiB of live heap above the baseline remain; a pair above a limit is measured up to three times and the smallest growth counts (growth with N is reproducible, a transient of a busy machine is not; every measurement uses serials and extension values no earlier measurement of the process has used); the memory back-end is measured and reported only (documented O(N)). Every size pair is non-trivial.",
 	Assumptions: []string{"HeapAlloc after runtime.GC() approximates live heap; the harness keeps no per-entry data"},
 }
 
@@ -244,6 +315,8 @@ func cases() []Case {
 		{Path: "whole-disk", N1: 100000, N2: 400000, Via: "http", Exts: true, CertIssuer: true},
 		{Path: "reader", N1: 20000, N2: 200000, Exts: true, CertIssuer: true},
 		{Path: "whole-memory", N1: 20000, N2: 100000, Via: "http", Exts: true},
+		{Path: "whole-disk", N1: 100000, N2: 400000, Via: "file", Exts: true, Distinct: true},
+		{Path: "store-fault", N1: 20000, N2: 200000, Exts: true, FailAfter: 1000},
 	}
 	if !ev.Thorough() {
 		return quick
